@@ -602,7 +602,8 @@ Definition srun (q : stream) (evs : list sevent) : stream := fold_left sstep evs
    (C06), the group is the one of C07.  What the group does when the count returns to zero is the only part that is
    not sequential here: dispatch_group_leave observes the zero at its atomic add and detaches the notify list in a
    later step (semaphore.c:279-299); `atomic_leave` = true collapses the two steps (the ideal group: a notification
-   runs only when the count is zero), false is the group as coded (C07: notify-early is a known finding). *)
+   runs only when the count is zero), false is the group as coded (C07's notify-early finding needs an enter between
+   the add and the detach; here every enter runs on the barrier queue, which a registered barrier keeps suspended). *)
 Inductive bitem := IEnq (op : Z) | IBar (id : Z).
 Inductive blog := LEnq (op : Z) | LDone (op : Z) | LBar (id : Z).
 Record bst := mkB {
@@ -651,7 +652,14 @@ Definition bstep (atomic_leave : bool) (s : bst) (e : bevent) : bst :=
         | [] =>
             if atomic_leave then
               mkB (b_q s) (b_susp s) [] [] (b_fired s ++ b_notifs s) (b_wake s) (b_exec s) (b_log s ++ [LDone op])
-            else mkB (b_q s) (b_susp s) [] (b_notifs s) (b_fired s) (S (b_wake s)) (b_exec s) (b_log s ++ [LDone op])
+            else
+              (* as coded: the state read by the atomic add has HAS_NOTIFS iff a notification is registered; without it
+                 the loop exits at once and _dispatch_group_wake(dg, old_state) finds nothing to do (semaphore.c:283-299,
+                 251); with it the list is detached in a later step (HAS_WAITERS is never set: io.c never waits) *)
+              match b_notifs s with
+              | [] => mkB (b_q s) (b_susp s) [] [] (b_fired s) (b_wake s) (b_exec s) (b_log s ++ [LDone op])
+              | _ => mkB (b_q s) (b_susp s) [] (b_notifs s) (b_fired s) (S (b_wake s)) (b_exec s) (b_log s ++ [LDone op])
+              end
         | _ => mkB (b_q s) (b_susp s) out (b_notifs s) (b_fired s) (b_wake s) (b_exec s) (b_log s ++ [LDone op])
         end
       else s
